@@ -2199,6 +2199,8 @@ private:
         {
             if (!simple_states[state_idx].test(sit_idx))
             {
+                if (states[state_idx].all_situations_vec.size() >= max_sit_count_per_state_cap)
+                    throw std::runtime_error("Situation count per state exceeds the cap");
                 simple_states[state_idx].set(sit_idx);
                 states[state_idx].all_situations_vec.push_back(sit_idx);
                 situation_info info = make_situation_info(sit_idx);
